@@ -34,25 +34,25 @@ var Epoch = time.Unix(1767225630, 0)
 const ServerPort = 8964
 
 type Config struct {
-	UDP          bool
-	MTU          int
-	Users        []*appctlpb.User // registered at the server; default alice:pw1
-	ClientUser   *appctlpb.User   // default = Users[0]
-	ClientTP     *appctlpb.TrafficPattern
-	ServerTP     *appctlpb.TrafficPattern
-	Mux          appctlpb.MultiplexingLevel
-	NoWait       bool
-	HintMandatory bool
-	Latency      time.Duration
-	C2S, S2C     simnet.StreamOpts
-	FaultMenu    func(d *simnet.Dgram) []simnet.Fault
-	Script       func(d *simnet.Dgram) *simnet.Fault
-	Horizon      time.Duration // virtual; default 120 s
-	Seed         int64
-	EpochOffset  time.Duration
-	ClientSkew   time.Duration
-	MaxSteps     uint64
-	NoClient     bool
+	UDP            bool
+	MTU            int
+	Users          []*appctlpb.User // registered at the server; default alice:pw1
+	ClientUser     *appctlpb.User   // default = Users[0]
+	ClientTP       *appctlpb.TrafficPattern
+	ServerTP       *appctlpb.TrafficPattern
+	Mux            appctlpb.MultiplexingLevel
+	NoWait         bool
+	HintMandatory  bool
+	Latency        time.Duration
+	C2S, S2C       simnet.StreamOpts
+	FaultMenu      func(d *simnet.Dgram) []simnet.Fault
+	Script         func(d *simnet.Dgram) *simnet.Fault
+	Horizon        time.Duration // virtual; default 120 s
+	Seed           int64
+	EpochOffset    time.Duration
+	ClientSkew     time.Duration
+	MaxSteps       uint64
+	NoClient       bool
 	BothTransports bool // server listens on TCP and UDP
 }
 
